@@ -570,12 +570,20 @@ def parseParam (ns : Str) (x : Xml) : Except Err Param :=
         callerAllocates := attrGet "caller-allocates" a == some sOne,
         closureName := none, destroyName := none, skip := parseFlag false (attrGet "skip" a), docs := docs }
 
+/-- `ast.PARAM_TRANSFER_NONE` -/
+def sTransferNone : Str := "none".toList
+
+/-- the `transfer-ownership` attribute of `<return-value>`: `return_.transfer` when truthy, else
+    `PARAM_TRANSFER_NONE` for a skipped return value (the attribute is mandatory in the GIR), else absent -/
+def returnTransfer (r : Return) : Option Str :=
+  if truthy r.transfer then r.transfer else optIf r.skip sTransferNone
+
 /-- `GIRWriter._write_return_type(return_, parent)` -/
 def writeReturn (ns : Str) (names : List (Option Str)) (r : Return) : Except Err Xml := do
   let dk ← writeDocs r.docs
   let t ← writeType ns (some names) r.ty
   pure (.elem "return-value" (compact [
-      ("transfer-ownership", keepTruthy r.transfer),
+      ("transfer-ownership", returnTransfer r),
       ("skip", optIf r.skip sOne),
       ("nullable", optIf (r.nullable && !r.notNullable) sOne)]) (dk ++ [t]) none)
 
@@ -826,7 +834,7 @@ def wfParam (ns : Str) (p : Param) : Bool :=
   wfTy ns p.ty && p.direction != some [] && wfDocs false p.docs
 
 def canonReturn (r : Return) : Return :=
-  { r with ty := canonTy r.ty, transfer := keepTruthy r.transfer, nullable := r.nullable && !r.notNullable,
+  { r with ty := canonTy r.ty, transfer := returnTransfer r, nullable := r.nullable && !r.notNullable,
            notNullable := false, docs := canonDocs r.docs }
 
 def wfReturn (ns : Str) (r : Return) : Bool := wfTy ns r.ty && wfDocs false r.docs
